@@ -889,7 +889,9 @@ class CSSStyleSheet(cssutils.stylesheets.StyleSheet):
                 self._cssRules.insert(index, rule)
 
         # post settings
-        rule._parentStyleSheet = self
+        if rule in self._cssRules:
+            rule._parentRule = None
+            rule._parentStyleSheet = self
 
         if rule.IMPORT_RULE == rule.type and not rule.hrefFound:
             # try loading the imported sheet which has new relative href now
